@@ -68,16 +68,27 @@
       (a set of partition 1 delivered while partition 0 is in flight, then a shared set appended): `projOKn 2 0`
       holds and the theorem is instantiated; `exTwo` (first `deliver` holds both partitions) is inside `projOK`,
       outside `projOKn`.
+    * Props/C02multiM.lean - `bpActsN_mixed` (system level): applying ANY action list to the N-state is, for `p`,
+      applying `(as.filter (isOwn p)).map relabA` to the one-partition state, offsets from `off p`.
+    * Props/C02multiV.lean, C02multiV2.lean, C02multiV3.lean - the WORKER LEVEL of the visible `deliver` with a
+      per-partition answer (`.parts v`, i.e. `.verdicts (bvOf ∘ v) [] []`), PROVED, no worker invariant needed:
+      `own_loop1` / `own_loop2` / `own_handle` (the outcome-bearing actions of `p` of the two passes of handleSuccess
+      over a set with several partitions, with retries and fin flags, and cr `p` / buffer of `p` afterwards),
+      `handle_P0` (the one-partition worker on a non-empty set with a constant verdict), `handle_proj_parts`,
+      `recheck_proj` (held message of `p`, of another partition, or none) and `resp_proj_parts`: for a set with
+      `projL p sent ≠ []`, `BrokerProd.resp` on the worker with several partitions and on the one-partition worker
+      (projected set, verdict of `p`) have the same relabelled outcome-bearing actions of `p`
+      (`A1.filter (isOwn 0) = (A.filter (isOwn p)).map relabA`), the states stay related (`closing`, `cr`, `buffer`,
+      `wait` as `projB p`), both lose the head of `sets`.
   EXACTLY ONE single-step statement is open: `DeliverVisProj` (Props/C02multiY.lean) - the `deliver` step for a set that
-  holds something of `p`: both answer kinds (`.parts`, `.conn`) and the re-check of a held message of `p`.  It needs
-  the projection of `BrokerProd.resp` with several partitions in the set: the outcome-bearing actions of `p` of both
-  passes of handleSuccess equal (relabelled) those of the one-partition worker on the projected set with `projV p r`
-  (Props/C02bp.lean has the id-level versions `outData_loop1`, `bounces_loop1`, `loop2_part`, `handle_needs`; needed
-  are versions that keep retries / fin flags, i.e. `(acts.filter (isOwn p)).map relabA` of the N-step = the same filter
-  of the one-partition step), and the state relation after the step.  The system-level half IS there:
-  Props/C02multiM.lean `bpActsN_mixed` (applying any action list to the N-state is, for `p`, applying its relabelled
-  outcome-bearing actions of `p` to the one-partition state, offsets from `off p`).  The worker-level half is not
-  started.
+  holds something of `p`.  What is MISSING for it:
+    (a) `.parts` answers: only the LIFT of `resp_proj_parts` to the system step (`proj_deliver_visible_parts_p`): the
+        one-partition step is enabled (`resp_enabled`), its `bpActs` depends only on the `isOwn 0` actions (a lemma
+        like `bpActsN_mixed` for `bpActs`, not written), `bpActsN_mixed` for the N-side with offsets `base p`
+        (`projPend`), `(projV p (.parts v)).toResp = .verdicts (fun _ => bvOf (v p)) [] []`, and `BRp` rebuilt with
+        `brp_mk`.  Not written.
+    (b) `.conn` answers for a visible set (all messages of `p` in the set and in the buffer re-queued or expired,
+        `closing` set, re-check of a held message of `p`): not started, at either level.
   Also not established: that the one-partition run exhibited by `ProjSim_partial` satisfies `splitOKs` (it is a
   hypothesis of `log_order_every_partition_partial`; it depends on the hidden/visible history, which the N-state alone
   does not determine), and the full `ProjSim` (no side condition).
